@@ -116,6 +116,7 @@ type c12Ent struct {
 	// registered (inE..outB, cut by DisconnectAll calls); empty if defB > defE.
 	// The interval in which it is POSSIBLY registered is inB..outE (if ok).
 	defB, defE int64
+	dbg        string // raw stamps and DisconnectAll windows, for violation messages
 }
 
 type c12Read struct {
@@ -184,14 +185,16 @@ func (w *c12World) join(name string, port int) *c12Player {
 	conn.SetProtocol(version.Minecraft_1_20.Protocol)
 	gp := &profile.GameProfile{Name: name, ID: uuid.OfflinePlayerUUID(name)}
 	pl := newConnectedPlayer(conn, gp, c12Addr(25565), packet.LoginHandshakeIntent, false, nil, w.deps)
+	// In the login path a session handler whose Disconnected() tears the player
+	// down is active for as long as the player is registered (authSessionHandler
+	// while registerConnection runs, then the handler installed by
+	// completeLoginProtocolPhaseAndInitialize). The fixture installs the latter
+	// before registering so that, as in production, there is no moment at which a
+	// registered player has no such handler.
+	conn.SetActiveSessionHandler(state.Play, newInitialConnectSessionHandler(pl))
 	e := &c12Ent{name: name, outB: c12Inf, outE: c12Inf}
 	e.inB = w.now()
 	ok := w.p.canRegisterConnection(pl) && w.p.registerConnection(pl)
-	if ok {
-		// completeLoginProtocolPhaseAndInitialize (pre-1.20.2 branch): the handler
-		// whose Disconnected() tears the player down
-		conn.SetActiveSessionHandler(state.Play, newInitialConnectSessionHandler(pl))
-	}
 	e.ok = ok
 	e.inE = w.now()
 	return &c12Player{pl: pl, conn: conn, reg: e, on: -1}
@@ -255,7 +258,7 @@ func c12Snapshot(api string, r c12Read, ents map[string]*c12Ent, all []*c12Ent) 
 	if lo > hi {
 		switch {
 		case hiBy != nil && hiBy.outE < r.t0:
-			return verifkit.Violationf("list-stale-entry:"+api, "%s (call window %d..%d) returned %q whose removal had completed at %d, before the call started", api, r.t0, r.t1, hiBy.name, hiBy.outE)
+			return verifkit.Violationf("list-stale-entry:"+api, "%s (call window %d..%d) returned %q whose removal had completed at %d, before the call started %s", api, r.t0, r.t1, hiBy.name, hiBy.outE, hiBy.dbg)
 		case loBy != nil && loBy.inB > r.t1:
 			return verifkit.Violationf("list-future-entry:"+api, "%s (call window %d..%d) returned %q whose registration only started at %d", api, r.t0, r.t1, loBy.name, loBy.inB)
 		default:
@@ -624,6 +627,7 @@ func c12Run(c c12Case) (res verifkit.Result) {
 			def  bool
 		}
 		var ivs []iv
+		e.dbg = fmt.Sprintf("[raw stamps: join %d..%d ok=%v, leave %d..%d; DisconnectAll windows %v]", e.inB, e.inE, e.ok, e.outB, e.outE, kills)
 		if e.outB != c12Inf {
 			ivs = append(ivs, iv{e.outB, e.outE, true})
 		}
